@@ -175,7 +175,7 @@ def fail(res, what, detail, status="prop_fail"):
     res.update(status=status, what=what, detail=detail, nontrivial=True)
     return res
 
-def cli(res, exe, args, what, detail, env=None, timeout=240):
+def cli(res, exe, args, what, detail, env=None, timeout=40):
     """run the CLI; a timeout or a non-zero exit status is a failure of the property (termination / success)"""
     rc, out, err = mtlib.run([exe] + args, timeout=timeout, env=env)
     res["evals"] += 1
@@ -443,7 +443,7 @@ def run_sched(st, case):
                 if os.path.exists(x):
                     os.remove(x)
             env = mtlib.shim_env(mode="coop", seed=1, trace=trace, picks=picks, sched=sched)
-            rc, out, err = mtlib.run([ctx["shim"]] + args, timeout=240, env=env)
+            rc, out, err = mtlib.run([ctx["shim"]] + args, timeout=40, env=env)
             res["evals"] += len(mp)
             what = "%s replaying model schedule (strategy %s, seed %d)" % (pipe, strat, gseed)
             dd = dict(detail, cfg=cfg_t, strategy=strat, gen_seed=gseed)
@@ -522,7 +522,7 @@ def run_explore(st, case):
         with open(sched, "w") as fh:
             fh.write("".join("%s %s\n" % tuple(x.split(":")) for x in witness.split(",")))
         env = mtlib.shim_env(mode="coop", seed=1, sched=sched, trace=os.path.join(d, "trace"))
-        rc, out, err = mtlib.run([ctx["shim"]] + args, timeout=120, env=env)
+        rc, out, err = mtlib.run([ctx["shim"]] + args, timeout=40, env=env)
         detail["replay_rc"] = rc
         detail["replay_stderr"] = err[-600:]
         if rc in (97, 95) or rc == "timeout":
